@@ -226,10 +226,10 @@ def builtin_lut(name):
     return _LUTS[name]
 
 
-def gen_user_lut(rng, dyadic=True, nmin=5, nmax=40):
+def gen_user_lut(rng, dyadic=True, nmin=5, nmax=40, feat=None):
     """A small table: scattered nodes (no grid, so that the Delaunay
     triangulation is unique), emodulus a smooth function plus noise."""
-    feat = rng.choice(["area_um", "area_um", "volume"])
+    feat = feat or rng.choice(["area_um", "area_um", "volume"])
     n = rng.randint(nmin, nmax)
     xhi = rng.choice([100, 300, 1000]) if feat == "area_um" else \
         rng.choice([500, 4000])
@@ -459,13 +459,19 @@ def quant(v, bits):
     return round(v * (1 << bits)) / (1 << bits)
 
 
-def gen_setup(rng, L, nice=True):
+OTHER_PX = [0.25, 0.5, 0.2, 0.68, 0.3125]
+
+
+def gen_setup(rng, L, nice=True, other_px=False):
     cw = rng.choice([L.cw, L.cw, 20.0, 30.0, 15.0, 40.0, 17.5] if nice else
                     [L.cw, 20.0, 30.0, rng.uniform(10, 50)])
     fr = rng.choice([L.fr, 0.04, 0.16, 0.125, 0.5, 1.0] if nice else
                     [L.fr, 0.04, 0.16, rng.uniform(0.01, 1.2)])
     px = rng.choice([0.34, 0.34, 0.0, 0, 0.25, 0.5] if nice else
                     [0.34, 0.0, rng.uniform(0.1, 0.7)])
+    if other_px:
+        px = rng.choice(OTHER_PX if nice else
+                        OTHER_PX + [rng.uniform(0.1, 0.9)])
     return cw, fr, px
 
 
@@ -478,6 +484,8 @@ KNOWN = [("CellCarrier", "herold-2017"), ("CellCarrierB", "herold-2017"),
 
 def gen_medium(rng, n, L, cw, fr, force=None):
     k = force or rng.choice(["num", "num", "scalar", "array", "array"])
+    if k == "per-event":
+        k = "array"
     if k == "num":
         v = rng.choice([L.visc, 1.0, 5.5, 2.25, 12.0,
                         quant(rng.uniform(0.5, 20), 6)])
@@ -487,7 +495,7 @@ def gen_medium(rng, n, L, cw, fr, force=None):
     if k == "scalar":
         return dict(kind="known", name=name, model=model,
                     temp=quant(rng.uniform(lo, hi), 4))
-    r = rng.random()
+    r = rng.random() if force != "per-event" else 1.0
     if r < 0.2:
         t = [quant(rng.uniform(lo, hi), 4)] * n       # all equal
     elif r < 0.3 and n != 1:
@@ -713,12 +721,39 @@ def compare_model(model, impl, dist, cond):
 
 
 # --------------------------------------------------------------------------
+# quotas named by the property's quantifier
+# --------------------------------------------------------------------------
+def quota_kind(case):
+    """which of the two guaranteed classes a case belongs to"""
+    out = []
+    lut = case["lut"]
+    if lut.get("kind") == "user" and lut["feat"] == "volume" and \
+            case["px"] not in (0, 0.0, 0.34):
+        out.append("volume-lut-other-px")
+    m = case["medium"]
+    if m["kind"] == "known" and isinstance(m["temp"], list) and \
+            len(m["temp"]) == len(case["x"]) and len(case["x"]) >= 1:
+        out.append("per-event-temperature")
+    return out
+
+
+def count_quota(run, case, where):
+    run.count("quota:%s:total" % where)
+    for k in quota_kind(case):
+        run.count("quota:%s:%s" % (where, k))
+
+
+# --------------------------------------------------------------------------
 # correspondence
 # --------------------------------------------------------------------------
-def gen_corr_case(rng, L, n=None, builtin=False):
-    cw, fr, px = gen_setup(rng, L, nice=True)
+def gen_corr_case(rng, L, n=None, builtin=False, other_px=False,
+                  per_event=False):
+    cw, fr, px = gen_setup(rng, L, nice=True, other_px=other_px)
     n = n if n is not None else rng.choice([0, 1, 2, 3, 5, 8])
-    med = gen_medium(rng, n, L, cw, fr)
+    if per_event and n == 0:
+        n = 3
+    med = gen_medium(rng, n, L, cw, fr,
+                     force="per-event" if per_event else None)
     if med["kind"] == "known" and isinstance(med["temp"], list) and \
             rng.random() < 0.06:
         # broadcasting error: wrong length
@@ -736,10 +771,15 @@ def correspondence(run):
     for c in load_corpus():
         if "x" in c and "check" not in c:
             groups.append((lut_from_case(c["lut"]), False, [(c, ["corpus"])]))
-    for _ in range(nuser):
-        L = gen_user_lut(rng, dyadic=True)
+    for gi in range(nuser):
+        # every fourth table is a volume table used with pixel sizes other
+        # than 0 and 0.34; every fourth case has per-event temperatures
+        vol = gi % 4 == 0
+        L = gen_user_lut(rng, dyadic=True, feat="volume" if vol else None)
         groups.append((L, False,
-                       [gen_corr_case(rng, L) for _ in range(per)]))
+                       [gen_corr_case(rng, L, other_px=vol,
+                                      per_event=(k % 4 == 1))
+                        for k in range(per)]))
     names = BUILTIN if run.thorough else ["HE-3D-FEM-22"]
     for name in names:
         L = builtin_lut(name)
@@ -795,12 +835,183 @@ def correspondence(run):
                 run.count("corr:nan", sum(1 for v in impl if np.isnan(v)))
                 run.count("corr:finite", sum(1 for v in impl
                                              if not np.isnan(v)))
+            count_quota(run, case, "corr")
             run.corr_checked += 1
             why = compare_model(model, impl, dist, cond)
             if why is not None:
                 run.mismatch(case, [str(m) for m in model] if not
                              isinstance(model, str) else model, impl,
                              what=why)
+
+
+# --------------------------------------------------------------------------
+# load.py bookkeeping: registry / resolution / header checks vs the model
+# --------------------------------------------------------------------------
+FEAT_NAMES = {0: "deform", 1: "area_um", 2: "emodulus", 3: "volume",
+              4: "circ", 9: "notafeature"}
+UNIT_NAMES = {0: "", 1: "um^2", 2: "kPa", 3: "um^3", 5: "furlong"}
+ERR_CODES = {"ValueError": 1, "AssertionError": 2, "KeyError": 3,
+             "FileNotFoundError": 4}
+
+
+def gen_filespec(rng):
+    r = rng.random()
+    cols = [(1, 1), (0, 0), (2, 2)]
+    if r < 0.2:
+        cols = [(3, 3), (0, 0), (2, 2)]
+    elif r < 0.3:
+        cols = [(0, 0), (1, 1), (2, 2)]            # KeyError: no recipe
+    elif r < 0.34:
+        cols = [(1, 1), (0, 0), (4, 0)]            # unit-less last column
+    elif r < 0.38:
+        cols = [(1, 1), (4, 0), (2, 2)]            # circ: assert False
+    elif r < 0.46:
+        cols = [(1, 5), (0, 0), (2, 2)]            # wrong unit
+    elif r < 0.52:
+        cols = [(9, 0), (0, 0), (2, 2)]            # not a feature
+    elif r < 0.58:
+        cols = [(1, 1), (0, 0), (2, 2), (3, 3)]    # four header columns
+    units = [rng.random() > 0.08 for _ in range(3)]
+    return dict(cols=cols, units=units,
+                ident=rng.choice([None, 1, 2]))     # index into id pool
+
+
+def write_filespec(path, spec, ident):
+    meta = {"channel_width": 20.0, "flow_rate": 0.04, "fluid_viscosity": 15.0,
+            "channel_width_unit": "um" if spec["units"][0] else "mm",
+            "flow_rate_unit": "uL/s" if spec["units"][1] else "mL/s",
+            "fluid_viscosity_unit": "mPa s" if spec["units"][2] else "Pa s"}
+    if ident is not None:
+        meta["identifier"] = ident
+    lines = ["# verification LUT", "# BEGIN METADATA"]
+    lines += ["# " + ln for ln in json.dumps(meta, indent=1).split("\n")]
+    lines += ["# END METADATA", "#"]
+    hdr = []
+    for ft, un in spec["cols"]:
+        hdr.append(FEAT_NAMES[ft] + (" [%s]" % UNIT_NAMES[un]
+                                     if UNIT_NAMES[un] else ""))
+    lines.append("# " + "\t".join(hdr))
+    lines += ["10.0\t0.01\t2.0", "100.0\t0.02\t8.0", "60.0\t0.1\t1.0"]
+    with open(path, "w") as fd:
+        fd.write("\n".join(lines) + "\n")
+
+
+def registry_correspondence(run):
+    """register_lut / get_lut_path / load_lut / column selection of the real
+    code against run_load_ops of the model on random operation sequences"""
+    from dclab.features import emodulus as em
+    from dclab.features.emodulus import load
+    rng = run.rng
+    d = os.path.join(run.scratch, "reg")
+    os.makedirs(d, exist_ok=True)
+    builtin_codes = {1: "LE-2D-FEM-19", 2: "HE-2D-FEM-22", 3: "HE-3D-FEM-22"}
+    rendered, expected, cases = [], [], []
+    for ci in range(150 if run.thorough else 40):
+        nfiles = rng.randint(1, 4)
+        # names: 10+k files that exist, 20+k paths that do not exist,
+        # 30+k free identifiers, 1..3 built-in identifiers (files 101..103)
+        strs = {}
+        files = {}
+        for k in range(nfiles):
+            spec = gen_filespec(rng)
+            strs[10 + k] = os.path.join(d, "c%d_f%d.txt" % (ci, k))
+            files[10 + k] = spec
+        for k in range(2):
+            strs[20 + k] = os.path.join(d, "c%d_missing%d.txt" % (ci, k))
+        for k in range(3):
+            strs[30 + k] = "verif-reg-%d-%d-%d" % (os.getpid(), ci, k)
+        for k, nm in builtin_codes.items():
+            strs[k] = nm
+            strs[100 + k] = os.path.join(emod_dir(), "lut_%s.txt" % nm)
+        back = {v: k for k, v in strs.items()}
+        idpool = {1: 30, 2: 31}
+        for code, spec in files.items():
+            ic = idpool.get(spec["ident"])
+            if spec["ident"] is not None and rng.random() < 0.15:
+                ic = rng.choice([1, code])      # a built-in id / its own path
+            spec["ident_code"] = ic
+            write_filespec(strs[code], spec,
+                           None if ic is None else strs[ic])
+        ops = []
+        for _ in range(rng.randint(3, 9)):
+            if rng.random() < 0.45:
+                p = rng.choice(list(files) + [20, 21])
+                i = rng.choice([-1, -1, 30, 31, 32, 1, rng.choice(list(files))])
+                ops.append((0, p, i))
+            else:
+                x = rng.choice(list(files) + [20, 30, 31, 32, 1, 2, 3])
+                ops.append((1, x, 0))
+        # the implementation
+        out = []
+        added = []
+        try:
+            for tag, x, y in ops:
+                if tag == 0:
+                    before = set(load.EXTERNAL_LUTS)
+                    try:
+                        load.register_lut(strs[x],
+                                          None if y < 0 else strs[y])
+                        out.append(0)
+                    except Exception as exc:
+                        out.append(ERR_CODES.get(type(exc).__name__, 8))
+                    added += list(set(load.EXTERNAL_LUTS) - before)
+                    continue
+                try:
+                    pth = str(load.get_lut_path(strs[x]))
+                except Exception as exc:
+                    out.append(ERR_CODES.get(type(exc).__name__, 8))
+                    continue
+                pc = back.get(pth, -7)
+                spec = files.get(pc)
+                vol = bool(spec) and spec["cols"][0][0] == 3
+                kw = dict(deform=np.array([0.02]), medium=5.0,
+                          temperature=None, visc_model=None,
+                          lut_data=strs[x])
+                kw["volume" if vol else "area_um"] = np.array([50.0])
+                try:
+                    em.get_emodulus(**kw)
+                    out += [0, pc, 3 if vol else 1]
+                except Exception as exc:
+                    out += [ERR_CODES.get(type(exc).__name__, 8), pc]
+        finally:
+            for k in added:
+                load.EXTERNAL_LUTS.pop(k, None)
+        # the model
+        frec = []
+        for code, spec in sorted(files.items()):
+            ic = spec["ident_code"]
+            frec.append("(%d, mkFile %s %s %s %s [%s] (Qmake 20 1) "
+                        "(Qmake 1 25) (Qmake 15 1) [])" % (
+                            code, common.blit(spec["units"][0]),
+                            common.blit(spec["units"][1]),
+                            common.blit(spec["units"][2]),
+                            "None" if ic is None else "(Some %d)" % ic,
+                            "; ".join("(%d, %d)" % c for c in spec["cols"])))
+        for k in builtin_codes:
+            frec.append("(%d, mkFile true true true (Some %d) "
+                        "[(1, 1); (0, 0); (2, 2)] (Qmake 20 1) (Qmake 1 25) "
+                        "(Qmake 15 1) [])" % (100 + k, k))
+        world = "mkWorld [%s] [(1, 101); (2, 102); (3, 103)] [] [] 0%%N" % \
+            "; ".join(frec)
+        rendered.append("(%s,\n [%s])" % (world, "; ".join(
+            "(%s, %s, %s)" % tuple(common.zlit(v) for v in o) for o in ops)))
+        expected.append(out)
+        case = dict(kind="registry", files={str(k): dict(
+            cols=v["cols"], units=v["units"], ident=v["ident_code"])
+            for k, v in files.items()}, ops=ops)
+        cases.append(case)
+    res = common.coq_map(run.scratch, "c05_reg", HEADER,
+                         "(fun c => run_load_ops (fst c) (snd c))", rendered,
+                         shard=50)
+    for case, m, i in zip(cases, res, expected):
+        run.record_case(case, True, sample=False)
+        run.count("corr:registry")
+        for o in case["ops"]:
+            run.count("corr:registry-op=%s" % ("register" if o[0] == 0
+                                               else "load"))
+        run.corr_checked += 1
+        if m != i:
+            run.mismatch(case, m, i, what="registry/loading bookkeeping")
 
 
 def load_corpus():
@@ -1329,8 +1540,9 @@ def run_check(case, scratch, seed=0):
             name, exc, traceback.format_exc().splitlines()[-3].strip())
 
 
-def gen_scenario(rng, L, n, nice=False, special=False, force_med=None):
-    cw, fr, px = gen_setup(rng, L, nice=nice)
+def gen_scenario(rng, L, n, nice=False, special=False, force_med=None,
+                 other_px=False):
+    cw, fr, px = gen_setup(rng, L, nice=nice, other_px=other_px)
     med = gen_medium(rng, n, L, cw, fr, force=force_med)
     x, d, kinds = gen_events(rng, L, cw, px, n, special=special)
     return dict(lut=lut_to_case(L), cw=cw, fr=fr, px=px, medium=med,
@@ -1362,7 +1574,9 @@ def oracle_cases(run):
                 out.append((case, kinds))
     # generated tables: many calls, few events
     for k in range(1500 if th else 120):
-        L = gen_user_lut(rng, dyadic=rng.random() < 0.3, nmax=60)
+        vol = k % 4 == 0
+        L = gen_user_lut(rng, dyadic=rng.random() < 0.3, nmax=60,
+                         feat="volume" if vol else None)
         for chk in names:
             if chk == "isoelastics" or (
                     rng.random() < 0.5 and chk not in ("reference", "batch")):
@@ -1371,7 +1585,9 @@ def oracle_cases(run):
             case, kinds = gen_scenario(
                 rng, L, n, nice=rng.random() < 0.5,
                 special=(chk in ("batch", "reference")
-                         and rng.random() < 0.3))
+                         and rng.random() < 0.3),
+                other_px=vol,
+                force_med="per-event" if rng.random() < 0.25 else None)
             case["lut"]["via"] = "tuple"
             case["check"] = chk
             case["rseed"] = rng.randrange(1 << 30)
@@ -1402,6 +1618,7 @@ def oracle(run):
                                      or "user-" + case["lut"]["feat"]))
         run.count("oracle:events", n)
         run.count("oracle:route=%s" % route_of(case["medium"]))
+        count_quota(run, case, "oracle")
         for k in set(kinds):
             run.count("oracle:event=%s" % k, kinds.count(k))
         if fail is not None:
@@ -1508,6 +1725,7 @@ def oracle_hypotheses(run):
 
 def run(run):
     correspondence(run)
+    registry_correspondence(run)
     oracle(run)
 
 
